@@ -7,8 +7,9 @@ results are compared (instance ids ignored).
 
  h_rank     assignment_ops.nearest_shortest_queue_ranking over Station.on_shift_access_chargers (3 plug types,
             symbolic installed counts and queue lengths: ties)
- h_nearest  H3Ops.nearest_entity over the h3.k_ring cell set (two stations in different search cells of ring 1,
-            symbolic distance values and validity: ties)
+ h_nearest  H3Ops.nearest_entity over the h3.k_ring cell set and over the id set registered at a search cell (three stations
+            in different search cells of ring 1 plus a fourth sharing a search cell with the first, symbolic distance
+            values and validity: ties)
  h_step     end to end: real StepSimulation.update with the built-in ChargingFleetManager + Dispatcher, fleets {f1, f2}
             in both orders, a vehicle that is in both fleets, requests of either fleet, a low-energy vehicle searching a
             station whose on-shift plug set is permuted.   CASE = cell index of v0 (0..3) * 2 + cell of v1 (A / D).
@@ -114,9 +115,13 @@ _CC = real_h3.h3_to_center_child(_RING1[5], 15)
 _SA = replace(A.S1, id="sa", position=A.NET.position_from_geoid(_CA))
 _SB = replace(A.S1, id="sb", position=A.NET.position_from_geoid(_CB))
 _SC = replace(A.S1, id="sc", position=A.NET.position_from_geoid(_CC))
+# ... and a fourth station in the SAME search cell as sa (the id set registered at one search cell has two members)
+_CD = [c for c in sorted(real_h3.k_ring(_CA, 2) - {_CA}) if real_h3.h3_to_parent(c, A.SEARCH_RES) == _RING1[0]][0]
+_SD = replace(A.S1, id="sd", position=A.NET.position_from_geoid(_CD))
 _SIM_N = A.SIM0._replace(stations=immutables.Map(), s_locations=immutables.Map(), s_search=immutables.Map())
-for _s in (_SA, _SB, _SC):
+for _s in (_SA, _SB, _SC, _SD):
     _SIM_N = sso.add_station_safe(_SIM_N, _s).unwrap()
+assert _SIM_N.s_search[_RING1[0]] == frozenset(("sa", "sd"))
 
 
 class _RingShim:
@@ -140,14 +145,16 @@ class _RingShim:
 _RING = _RingShim()
 
 
-def _nearest(perm, da, db, dc, va, vb):
+def _nearest(perm, da, db, dc, va, vb, dd=3):
     _RING.perm = perm
-    dist = {"sa": da, "sb": db, "sc": dc}
-    valid = {"sa": va, "sb": vb, "sc": True}
+    dist = {"sa": da, "sb": db, "sc": dc, "sd": dd}
+    valid = {"sa": va, "sb": vb, "sc": True, "sd": True}
+    # the id set registered at sa's search cell iterates in a solver-chosen order as well
+    pair = OrderedView(("sa", "sd"), (0, 1) if perm[0] < perm[1] else (1, 0))
     return H3Ops.nearest_entity(
         geoid=A.CELL_A,
         entities=_SIM_N.get_stations(),
-        entity_search=_SIM_N.s_search,
+        entity_search=_SIM_N.s_search.set(_RING1[0], pair),
         sim_h3_search_resolution=A.SEARCH_RES,
         distance_function=lambda e: dist[e.id],
         is_valid=lambda e: valid[e.id],
@@ -155,10 +162,10 @@ def _nearest(perm, da, db, dc, va, vb):
     )
 
 
-def h_nearest(p: int, q: int, da: int, db: int, dc: int, va: bool, vb: bool) -> bool:
+def h_nearest(p: int, q: int, da: int, db: int, dc: int, va: bool, vb: bool, dd: int) -> bool:
     """
     pre: 0 <= p <= 5 and 0 <= q <= 5 and p < q
-    pre: 0 <= da <= 3 and 0 <= db <= 3 and 0 <= dc <= 3
+    pre: 0 <= da <= 3 and 0 <= db <= 3 and 0 <= dc <= 3 and 0 <= dd <= 3
     post: _
     """
     pa, pb = perm_of(p, 3), perm_of(q, 3)
@@ -167,8 +174,8 @@ def h_nearest(p: int, q: int, da: int, db: int, dc: int, va: bool, vb: bool) -> 
     saved = h3_ops.h3
     h3_ops.h3 = _RING  # also in concrete replay: the ring order is the thing being varied
     try:
-        ra = _nearest(pa, da, db, dc, True if va else False, True if vb else False)  # ---- real code
-        rb = _nearest(pb, da, db, dc, True if va else False, True if vb else False)
+        ra = _nearest(pa, da, db, dc, True if va else False, True if vb else False, dd)  # ---- real code
+        rb = _nearest(pb, da, db, dc, True if va else False, True if vb else False, dd)
     finally:
         h3_ops.h3 = saved
     note("nearest", ra.id if ra is not None else None)
